@@ -169,6 +169,11 @@ func genRenderScn(r *Rng) RenderScn {
 	return RenderScn{SoftBreak: r.Intn(3), IgnoreRaw: r.Chance(0.5), Filter: f}
 }
 
+// oddSoftBreaks: SoftBreakBehavior is an int type; "every renderer
+// configuration" includes values outside the three named constants (the
+// unchanged renderer treats them like SoftBreakPreserve).
+var oddSoftBreaks = []int{-1, 3, 7, 255, -128, 1 << 20}
+
 // allRenderScns is the full SoftBreakBehavior x IgnoreRaw x FilterTag grid.
 func allRenderScns(setSeed uint64) []RenderScn {
 	var out []RenderScn
